@@ -36,12 +36,17 @@ ISA['instructions'] = dict(ISA['instructions'], brn={'bytecode': {'value': 0x93,
 # an operand-less instruction declared with an explicit empty operands block
 ISA['instructions'] = dict(ISA['instructions'], hlt0={'bytecode': {'value': 0x92, 'size': 8}, 'operands': {'count': 0}})
 ISA['instructions'] = dict(ISA['instructions'], n4={'bytecode': {'value': 0x3, 'size': 4}, 'operands': {'count': 1, 'operand_sets': {'list': ['imm4']}}})
+# exclusions: `push` takes register a but not b (a one-operand exclusion), `ldi b, <imm>` is fine but the 3-operand `mov3 b, a, b` is excluded
+ISA['instructions'] = dict(ISA['instructions'],
+                           push={'bytecode': {'value': 0x7, 'size': 4}, 'operands': {'count': 1, 'operand_sets': {'list': ['reg'], 'disallowed_pairs': [['rb']]}}},
+                           mov3={'bytecode': {'value': 0x2, 'size': 4}, 'operands': {'count': 3, 'operand_sets': {'list': ['reg', 'reg', 'reg'],
+                                                                                                             'disallowed_pairs': [['rb', 'ra', 'rb']]}}})
 ISA['predefined'] = {'memory_zones': [{'name': 'zz', 'start': 0x40, 'end': 0x5F}],
                      'data': [{'name': 'blk', 'address': 0x70, 'value': 1, 'size': 2}],
                      'symbols': [{'name': 'PRE', 'value': '1'}]}
 
 BASES = {
-    'code': ['start: nop', '    ldi a, 5', '.loop:', '    ldi b, val+1', '    brr .loop', '    jmp start', '    push a',
+    'code': ['start: nop', '    ldi a, 5', '.loop:', '    ldi b, val+1', '    brr .loop', '    jmp start', '    push a', '    mov3 a, a, b',
              '    ldm [val]', '    sel foo', '    n12 3', '    n4 7', '    hlt0', '    brc {start}', '    brn start', '    lds [sp+2]', '    lds [b + val]', '    lds a + 1', 'val: .byte 1, 2, $1F', '    .2byte start, val'],
     'control': ['#define SA 1', '#define SB SA', '#if SA == 1', '    .byte 1', '#elif SB', '    .byte 2', '#else', '    .byte 3', '#endif',
                 '#ifdef PRE', '    .byte SB', '#endif', '#ifndef NOPE', 'K = 4', '#endif', '    .byte K'],
@@ -91,11 +96,11 @@ def must_reject(lines):
             if t in ('nop', 'hlt0') and line.strip() == t:
                 for extra in ('5', 'a', 'val', '[5]', 'val, 5', ',', ', ,'):
                     out.append((f'line {i}: operand {extra!r} after {t}, which takes none', lines[:i] + [f'    {t} {extra}'] + lines[i + 1:]))
-            if t in ('nop', 'ldi', 'brr', 'jmp', 'push', 'ldm', 'sel', 'n12', 'n4', 'mac', 'hlt0', 'brc', 'lds', 'brn'):
+            if t in ('nop', 'ldi', 'brr', 'jmp', 'push', 'mov3', 'ldm', 'sel', 'n12', 'n4', 'mac', 'hlt0', 'brc', 'lds', 'brn'):
                 out.append((f'line {i}: mnemonic {t} := unknown word', lines[:i] + [''.join(toks[:k] + ['qqq'] + toks[k + 1:])] + lines[i + 1:]))
-        m = re.match(r'^(\s*(?:\w+:\s*)?)(ldi|push|ldm|sel|n12|n4|brr|jmp|brn)\s+(.*)$', line)
+        m = re.match(r'^(\s*(?:\w+:\s*)?)(ldi|push|ldm|sel|n12|n4|brr|jmp|brn|mov3)\s+(.*)$', line)
         if m:
-            bad = {'ldi': 'a, [5]', 'push': '5', 'ldm': 'a', 'sel': 'nokey_', 'n12': '[3]', 'n4': '[1]', 'brr': '[[1]]', 'jmp': 'a', 'brn': '[a]'}[m.group(2)]
+            bad = {'ldi': 'a, [5]', 'push': 'b', 'ldm': 'a', 'sel': 'nokey_', 'n12': '[3]', 'n4': '[1]', 'brr': '[[1]]', 'jmp': 'a', 'brn': '[a]', 'mov3': 'b, a, b'}[m.group(2)]
             out.append((f'line {i}: operands no variant accepts', lines[:i] + [f'{m.group(1)}{m.group(2)} {bad}'] + lines[i + 1:]))
             # an empty operand slot (stray comma): the statement has an operand no variant accepts
             ops = m.group(3)
